@@ -13,5 +13,8 @@ pub mod t_orswot;
 pub mod c11_aggregates;
 pub mod t_mvreg;
 pub mod t_map_orswot;
+pub mod c14_identifier;
+pub mod t_list;
+pub mod c15_merkle;
 
 include!(concat!(env!("VH_GEN_DIR"), "/dispatch.rs"));
